@@ -343,13 +343,18 @@ func runClient(flights [][][]byte, eofAfter bool, answer func(id uint32) *demonw
 		for _, ch := range payloadUp {
 			conn.Feed(ch)
 			se.s.Settle()
-			res.tasks = append(res.tasks, se.tasks()...)
+			if !strings.HasSuffix(closeBy, "+late-poll") {
+				// the agent polls after every chunk; with "+late-poll" all chunks are relayed
+				// (several write tasks pending at once) before the agent fetches them
+				res.tasks = append(res.tasks, se.tasks()...)
+			}
 		}
+		res.tasks = append(res.tasks, se.tasks()...)
 		for _, ch := range payloadDown {
 			res.tasks = append(res.tasks, se.tasks(cbRead(sid, ch))...)
 			se.s.Settle()
 		}
-		switch closeBy {
+		switch strings.TrimSuffix(closeBy, "+late-poll") {
 		case "client":
 			conn.ClosePeer()
 			se.s.Settle()
@@ -601,8 +606,11 @@ func runIntegrity(r *ev.Run) {
 	n := 0
 	for _, up := range chunkings(msg[:12], true) {
 		for _, dn := range chunkings(down[:9], true) {
-			for _, closeBy := range []string{"client", "agent"} {
+			for _, closeBy := range []string{"client", "agent", "client+late-poll", "agent+late-poll"} {
 				if !r.Thorough() && len(up) > 1 && len(dn) > 1 {
+					continue
+				}
+				if strings.HasSuffix(closeBy, "+late-poll") && len(up) == 1 {
 					continue
 				}
 				res := runClient([][][]byte{{g.bytes()}, {q.bytes()}}, false, func(id uint32) *demonwire.Sub { s := cbConnect(id, true, 0); return &s }, up, dn, closeBy)
@@ -643,6 +651,7 @@ func runIntegrity(r *ev.Run) {
 				if len(res.out) < replyLen || !bytes.Equal(res.out[replyLen:], down[:9]) {
 					r.Violate("relay/downstream-bytes", fmt.Sprintf("agent returned %q, client received %q", down[:9], res.out[min(replyLen, len(res.out)):]), detail)
 				}
+				closeBy = strings.TrimSuffix(closeBy, "+late-poll")
 				if res.sockCli != 0 {
 					r.Violate("relay/socket-not-removed/closed-by-"+closeBy, fmt.Sprintf("after the %s closed, the socket is still in the agent's socks-client table", closeBy), detail)
 				}
